@@ -751,6 +751,11 @@ func (c *Conn) recv(ctx context.Context) error {
 		if _, ok := err.(net.Error); ok {
 			return err
 		}
+		// a body that was not read to its end leaves the connection in the middle of
+		// that frame: what follows cannot be told apart from frame headers any more
+		if _, ok := err.(*frameBodyReadError); ok {
+			return err
+		}
 	}
 
 	// we either, return a response to the caller, the caller timedout, or the
